@@ -26,5 +26,7 @@ fn main() {
     let commits: Vec<Vec<(Vec<u8>, Option<(u32, u32)>)>> =
         out.model.commits.iter().map(|c| c.writes.iter().map(|w| (w.key.clone(), w.op.value().map(|v| (v.len, v.tag)))).collect()).collect();
     let failed: Vec<(Vec<u8>, Option<(u32, u32)>)> = out.failed_writes.iter().map(|(k, op)| (k.clone(), op.value().map(|v| (v.len, v.tag)))).collect();
-    println!("{}", serde_json::json!({"failure": f, "commits": commits, "failed_writes": failed, "n_failed": out.stats.get("failed_commits")}));
+    let failed_commits: Vec<(usize, String, Vec<(Vec<u8>, Option<(u32, u32)>)>)> =
+        out.failed_commits.iter().map(|(at, e, ws)| (*at, e.clone(), ws.iter().map(|(k, op)| (k.clone(), op.value().map(|v| (v.len, v.tag)))).collect())).collect();
+    println!("{}", serde_json::json!({"failure": f, "commits": commits, "failed_writes": failed, "failed_commits": failed_commits, "n_failed": out.stats.get("failed_commits")}));
 }
